@@ -433,6 +433,7 @@ func emitValue(src string, v val) {
 }
 
 var seenParse = map[string]bool{}
+var parseLog [][2]string // input, JSON of the first outcomes
 
 // parse case: one input through all five parsers; accepted values are followed up as value cases
 func emitParse(src, s string) {
@@ -453,6 +454,9 @@ func emitParse(src, s string) {
 	}
 	rb, _ := parseKind("blit", s)
 	o["blit"] = rb
+	if fb, err := json.Marshal(o); err == nil {
+		parseLog = append(parseLog, [2]string{s, string(fb)})
+	}
 	emit(J{"kind": "parse", "src": src, "in": hx(s), "out": o, "tables": tb.json()})
 	for _, v := range acc {
 		emitValue("accepted", v)
@@ -797,6 +801,23 @@ func modeParse(tier string, n int, alpha string, maxlen int) {
 			emitParse("mut", s)
 		}
 	}
+	// second pass: every input again, in reverse order; the parsers must answer as they did the first time
+	diff := 0
+	var ex []string
+	for i := len(parseLog) - 1; i >= 0; i-- {
+		o := J{}
+		for _, k := range append(append([]string{}, kinds...), "blit") {
+			r, _ := parseKind(k, parseLog[i][0])
+			o[k] = r
+		}
+		if fb, err := json.Marshal(o); err == nil && string(fb) != parseLog[i][1] {
+			diff++
+			if len(ex) < 5 {
+				ex = append(ex, hx(parseLog[i][0]))
+			}
+		}
+	}
+	emit(J{"kind": "secondpass", "texts": len(parseLog), "different": diff, "examples": ex})
 }
 
 // named corpus values: the known findings of C05 and boundary cases of the documented domain
@@ -1201,7 +1222,7 @@ func modeGraph(n int) {
 }
 
 func modeReader(n int) {
-	fixed := []string{"", "\n", "\n\n", " \t \n", "/a<b>\t\"p\"@[]\t/c<d>", "/a<b>\t\"p\"@[]\t/c<d>\n", "/a<b>\t\"p\"@[]\t/c<d>\r\n/a<b>\t\"q\"@[]\t/c<d>\r\n",
+	fixed := []string{"", "\n", "\n\n", " \t \n", "\u00a0\n/a<b>\t\"p\"@[]\t/c<d>\n\u3000 \u2003\n", "\u00a0/a<b>\t\"p\"@[]\t/c<d>\u0085\r\n\xc2\n/a<b>\t\"q\"@[]\t/c<d>\n", "/a<b>\t\"p\"@[]\t/c<d>", "/a<b>\t\"p\"@[]\t/c<d>\n", "/a<b>\t\"p\"@[]\t/c<d>\r\n/a<b>\t\"q\"@[]\t/c<d>\r\n",
 		"/a<b>\t\"p\"@[]\t/c<d>\nbad\n/a<b>\t\"q\"@[]\t/c<d>\n", "bad", "/a<b>\t\"p\"@[]\t\"x\\\"^^type:text\"@[]\n",
 		"/a<b>\t\"p\"@[]\t/c<d>\n/a<b>\t\"p\"@[]\t/c<d>\n", "/a<b>\t\"p\"@[]\t\"a\nb\"^^type:text\n", "\r\n\r\n/a<b>\t\"p\"@[]\t/c<d>\r",
 		"/a<x] /y>\t\"p\"@[]\t/b<c>\n"}
